@@ -32,7 +32,26 @@ func (g *Gen) scenArguments() []N {
 	ops := 2 + g.pick(6)
 	for i := 0; i < ops; i++ {
 		idx := g.pick(3)
-		switch g.pick(9) {
+		switch g.pick(12) {
+		case 9: // 10.6 [[DefineOwnProperty]]: a value goes to the parameter, writable: false or an accessor ends the mapping
+			var d N
+			switch g.pick(5) {
+			case 0:
+				d = Obj("value", g.smallVal())
+			case 1:
+				d = Obj("writable", Bool(false))
+			case 2:
+				d = Obj("value", g.smallVal(), "writable", Bool(false))
+			case 3:
+				d = Obj("get", Fn("", nil, Return(Str("getter"))))
+			default:
+				d = Obj("enumerable", Bool(false))
+			}
+			body = append(body, Try([]N{Expr(Call(Dot(Id("Object"), "defineProperty"), Id("arguments"), Str([]string{"0", "1", "2"}[idx]), d))}, "e", []N{g.hcall(Str("define threw"))}, true, nil, false))
+		case 10, 11:
+			dn := g.fresh("dd")
+			body = append(body, Var(dn, Call(Dot(Id("Object"), "getOwnPropertyDescriptor"), Id("arguments"), Str([]string{"0", "1", "2"}[idx]))),
+				g.hcall(Un("typeof", Id(dn)), Cond(Id(dn), Dot(Id(dn), "value"), Num(0)), Cond(Id(dn), Dot(Id(dn), "writable"), Num(0)), Cond(Id(dn), Un("typeof", Dot(Id(dn), "get")), Num(0))))
 		case 0:
 			if len(params) > 0 {
 				body = append(body, Expr(Asg("=", Id(params[g.pick(len(params))]), g.smallVal())))
@@ -500,7 +519,11 @@ func (g *Gen) scenForInMutate() []N {
 		kv = append(kv, n, Num(i))
 	}
 	out := []N{Var(o, Obj(kv...))}
+	deletable := names
 	if g.chance(40) { // inherited enumerable properties, one of them shadowed
+		// (the shadowing own property is never deleted: where the inherited one then appears in the
+		// enumeration is not specified by 12.6.4)
+		deletable = append([]string{names[0]}, names[2:]...)
 		pr := g.fresh("fp")
 		out = []N{Var(pr, Obj("z", Num(9), names[1], Num(8))), Var(o, Call(Dot(Id("Object"), "create"), Id(pr)))}
 		for i, n := range names {
@@ -513,7 +536,7 @@ func (g *Gen) scenForInMutate() []N {
 	at := names[g.pick(len(names))]
 	dels := []N{}
 	for i := 0; i < 1+g.pick(2); i++ {
-		dels = append(dels, g.hcall(Un("delete", Dot(Id(o), names[g.pick(len(names))]))))
+		dels = append(dels, g.hcall(Un("delete", Dot(Id(o), deletable[g.pick(len(deletable))]))))
 	}
 	body := []N{g.hcall(Id(k)), If(Bin("===", Id(k), Str(at)), Block(dels...), nil)}
 	out = append(out, ForIn(true, k, Id(o), Block(body...)))
